@@ -71,6 +71,10 @@ def compare_pair(rng, res, spec, root, spec2, root2, name_map, descs, applied, s
         # (parent classes first) were already computed by other code of the same interpreter
         steps2 = [{'op': 'warm_reprs'}] + steps2
         res.count('pairs_with_earlier_use_of_object_classes')
+    if rng.random() < 0.3:
+        # ... and an earlier chain of the same configuration whose tasks modified their (mutable) parameter values in place
+        steps2 = steps2[:-1] + [{'op': 'build', 'chain': 'pre', 'root': root2}, {'op': 'poison_params', 'chain': 'pre'}] + steps2[-1:]
+        res.count('pairs_after_an_earlier_chain_modified_its_parameter_values')
     hs = hashseeds or (rng.randrange(1, 10 ** 6), rng.randrange(1, 10 ** 6))
     with Lab(spec) as lab1, Lab(spec2) as lab2:
         r1 = lab1.run(steps1, spawn=spawn, hashseed=hs[0] if spawn else None)
